@@ -505,9 +505,11 @@ fn gen_frame(repo: &Path, g: &mut Gen) -> R<()> {
         if saw_default { return shape(frame_rel, "try_from: arm after the catch-all"); }
         let tag = eval_int(&consts[&name], &consts).map_err(|w| Shape(format!("{frame_rel}: {name}: {w}")))?;
         // Frame::<Variant>(..) or Frame::<Variant>
-        let var = variants.iter().map(|(v, _)| v.clone()).find(|v| toks.contains(&format!("Frame :: {v} (")) || toks.trim() == format!("Frame :: {v}"));
+        // (the arm may also wrap the frame in `Ok( … )` itself, and name the type `Self`)
+        let inner = { let t = toks.trim(); let t = t.strip_prefix("{").and_then(|x| x.strip_suffix("}")).map(|x| x.trim()).unwrap_or(t); t.strip_prefix("Ok (").and_then(|x| x.strip_suffix(")")).map(|x| x.trim().to_string()).unwrap_or_else(|| t.to_string()) };
+        let var = variants.iter().map(|(v, _)| v.clone()).find(|v| ["Frame", "Self"].iter().any(|ty| inner.contains(&format!("{ty} :: {v} (")) || inner == format!("{ty} :: {v}")));
         let var = match var { Some(v) => v, None => return shape(frame_rel, format!("try_from arm {name}: constructed variant not understood: {toks}")) };
-        let k = if toks.trim() == format!("Frame :: {var}") { Some("empty".to_string()) } else {
+        let k = if inner == format!("Frame :: {var}") || inner == format!("Self :: {var}") { Some("empty".to_string()) } else {
             body_kind(&with_callees(&toks, &ffns), &[("bincode :: deserialize (", "bincode"), ("( $ . into () )", "raw"), ("( $ . freeze () )", "raw")]) };
         match k { Some(k) => read.push((tag, var, k)), None => return shape(frame_rel, format!("try_from arm {name} not understood: {toks}")) }
     }
